@@ -298,13 +298,20 @@ def run_check(prop, tier, seed):
         corr = prop.correspondence(ctx)
     except Exception as ex:  # noqa
         where = _raised_in_repo(ex)
-        if where is None:
-            raise               # the harness itself failed: infrastructure, exit 2
-        # the implementation raised something no path of the unchanged code raises and the harness had no answer
-        # for: the correspondence no longer checks; go on to the failing-input search
+        if where is None and not broken:
+            raise               # the harness itself failed on a tree whose proofs still check: infrastructure, exit 2
+        # either the implementation raised something no path of the unchanged code raises and the harness had no
+        # answer for, or the source has already changed shape (a proof obligation / the translator broke) and the
+        # harness cannot drive it any more: the correspondence no longer checks; go on to the failing-input search
         corr = Corr()
-        corr.error = "the implementation raised %s: %s at %s while the correspondence was running" % (
-            type(ex).__name__, str(ex)[:200], where)
+        if where is not None:
+            corr.error = "the implementation raised %s: %s at %s while the correspondence was running" % (
+                type(ex).__name__, str(ex)[:200], where)
+        else:
+            import traceback
+            last = traceback.extract_tb(ex.__traceback__)[-1]
+            corr.error = "the harness could not drive the changed implementation: %s: %s at %s:%d" % (
+                type(ex).__name__, str(ex)[:200], os.path.basename(last.filename), last.lineno)
     if corr.error:
         broken.append("correspondence could not run: " + corr.error)
     ctx.log("correspondence: %d evaluations, %d distinct non-trivial, %d disagreements"
@@ -324,10 +331,8 @@ def run_check(prop, tier, seed):
             found = prop.oracle_search(ctx, corr, broken)
         except Exception as ex:  # noqa
             where = _raised_in_repo(ex)
-            if where is None:
-                raise
-            broken.append("failing-input search stopped: the implementation raised %s: %s at %s" % (
-                type(ex).__name__, str(ex)[:200], where))
+            broken.append("failing-input search stopped: %s: %s%s" % (
+                type(ex).__name__, str(ex)[:200], (" raised by the implementation at " + where) if where else " (harness)"))
             found = None
         replay_path = os.path.join("replays", "%s-%d.json" % (prop.ID, seed))
         if found is not None:
